@@ -2,6 +2,8 @@
 //! formats) and `frame` (every Frame operation for N = 1..=32) with independent oracles.
 #[path = "../util.rs"]
 mod util;
+#[path = "../iterproto.rs"]
+mod iterproto;
 use dasp_frame::Frame;
 use dasp_sample::{Sample, I24, I48, U24, U48};
 use util::*;
@@ -247,6 +249,19 @@ where T::Signed: H, T::Float: H, [T; N]: Frame<Sample = T, Signed = [T::Signed; 
         if chr.as_slice() != &fr[..] { st.oracle_fail("channels_ref() is not the channels in order", &frs, "", ""); }
         let mut fm = fr; let cm: Vec<T> = fm.channels_mut().map(|s| *s).collect();
         if cm.as_slice() != &fr[..] { st.oracle_fail("channels_mut() is not the channels in order", &frs, "", ""); }
+        // "channel iteration … in channel order", whichever way the iterators are consumed (nth, skip,
+        // step_by, count, last, len, size_hint, and from the back where they are double-ended)
+        {
+            use iterproto::*;
+            let reference: Vec<T> = fr.iter().copied().collect();
+            let s1 = gen_script(rng, N, Caps { double_ended: false, exact: false, finite: true });
+            if let (Some((w, e, o)), _, _) = check(&reference, &s1, &run_fwd(fr.channels(), &s1), false, true) { st.oracle_fail(&format!("channels(): {}", w), &frs, &e, &o); } else { st.oracle_ok(s1.len() as u64); }
+            let s2 = gen_script(rng, N, Caps { double_ended: true, exact: true, finite: true });
+            if let (Some((w, e, o)), _, _) = check(&reference, &s2, &run_de_exact_map(fr.channels_ref(), &s2, |s| *s), true, true) { st.oracle_fail(&format!("channels_ref(): {}", w), &frs, &e, &o); } else { st.oracle_ok(s2.len() as u64); }
+            let mut fm2 = fr;
+            if let (Some((w, e, o)), _, _) = check(&reference, &s2, &run_de_exact_map(fm2.channels_mut(), &s2, |s| *s), true, true) { st.oracle_fail(&format!("channels_mut(): {}", w), &frs, &e, &o); } else { st.oracle_ok(s2.len() as u64); }
+            st.count("iterator_protocol_scripts");
+        }
         for i in [0usize, N / 2, N - 1, N, N + 3] {
             let c = fr.channel(i).copied();
             st.case(&format!("fr channel {} {} {} {}", name, N, i, frs), &c.map(|s| s.enc()).unwrap_or("none".into()), true, 1);
